@@ -9,7 +9,7 @@ from simkit import terms as T
 
 ID = "C03"
 LEVEL = "exploration"
-RUNS = {"quick": 16000, "thorough": 500000}
+RUNS = {"quick": 80000, "thorough": 1500000}
 RULE = ("every byte string written by the real serializers in C01/C02-style seeded runs (both integrations, "
         "three physical types, namespace declarations on/off) is decoded by the independent reference decoder "
         "in strict mode; non-trivial = >=2 statements and >=1 lookup entry row; distinct = distinct "
